@@ -8,7 +8,7 @@ CHECKS = {
          "All byte strings of length 1-2 (3), all stack-pruned sequences up to length 4 (5) over 48 hostile tokens, every assignment of boundary constants to the operands of 28 multi-operand opcodes, 16 pipeline templates x B x B, every prefix and single-byte substitution of the smallest shipped contracts go through analyze() and through the staged API in up to 3 configurations, and up to 19 loop-free programs under every configuration whose five limits are each 1, 7, the default or usize::MAX in both error modes (2 048 configurations); panics are caught in-process, aborts and hangs are attributed to a case by re-running unfinished chunks one case at a time in a child process.",
          "inputs beyond ~40 bytes only through corpus prefixes; scale effects (native stack on 24 KiB contracts) not reached", "3/C01"),
  "C02": ("model_checking", "E4-schedule", "deviation-bounded exhaustive exploration of hash-iteration-order choices (controlled scheduler over the order-point hooks) on the real pipeline",
-         "The only scheduler in this single-threaded library is hash iteration order. Every place where a hash collection becomes a sequence is a hooked choice point; for ~15 000 programs (all evidence sequences <= 4 (5) over 18 tokens, slot-self-referential and mutually recursive container programs, idiom programs, two shipped contracts, mutually recursive containers, string-shaped slots, 250 out-of-order packed layouts, a hash computed at run time next to the same hash written as a literal) and all judgement sets of 2..3 (4) judgements driven directly on the unifier, all plans with 0 and 1 deviating choice points (2 for short programs in the thorough tier) are executed and class + layout must equal the canonical run. Runs are deterministic and replayable (plan files).",
+         "The only scheduler in this single-threaded library is hash iteration order. Every place where a hash collection becomes a sequence is a hooked choice point; for ~15 000 programs (all evidence sequences <= 4 (5) over 18 tokens, slot-self-referential and mutually recursive container programs, idiom programs, two shipped contracts, mutually recursive containers, string-shaped slots, 250 out-of-order packed layouts, a hash computed at run time next to the same hash written as a literal, one slot number reaching two or three accesses by different routes) and all judgement sets of 2..3 (4) judgements driven directly on the unifier, all plans with 0 and 1 deviating choice points (2 for short programs in the thorough tier) are executed and class + layout must equal the canonical run. Runs are deterministic and replayable (plan files).",
          "hooks must cover every order-sensitive point (DESIGN.md section 7); per-program schedule caps for the shipped contracts are reported", "3/C02"),
  "C03": ("exploration", "E2-programs", "bounded exhaustive program enumeration x configuration grid on the real VM, plus single-deviation schedule exploration for type-checker termination",
          "All control-flow token sequences up to length 6 (7) crossed with a grid of iteration {1,2,3} x fork {1,2,3} x gas {7,20,50,300,block} limits (two settings also in permissive mode) are executed by the real VM under a step-budget watchdog and every stored state is checked against the four stated bounds; all stack-safe storage read-mask-write sequences up to length 6 (7) are analysed under the canonical order and under every single deviation at the unification order points to decide termination of the whole pipeline; 280 programs with self-referential slot types, 16 pipeline templates with boundary constants, cyclic typing evidence of every joint period up to 60, and 836 chains in which each of 39 value-producing opcodes is fed its own result 6..24 (96) times (the bytes the analysis requests from a counting allocator must not multiply when the chain grows by six steps) must all finish.",
@@ -17,16 +17,16 @@ CHECKS = {
          "Every single variable of every listed kind (incl. mappings of depth 1-4 over all key-kind vectors and all 496 (206 367 thorough) byte-boundary splits of a packed word) at 6 slots x 3 access modes x 4 spellings, a dynamic array with a pre-folded keccak(slot) at every slot 0..9999, contracts of 4, 7 and 12 variables with one dominant kind, and all ordered pairs (triples) of 7 representative kinds, are generated from a ground-truth layout, analysed by the real pipeline and the layout is compared with the ground truth.",
          "idiom templates transcribed from shipped solc output; all kinds and modes crossed for 1-2 (3) variables, 4-12 variables only with one dominant kind", "3/C04"),
  "C05": ("exploration", "E2-programs", "bounded exhaustive program enumeration with look-alike hashing; over-approximated attribution oracle",
-         "All stack-safe sequences up to length 5 (6) over 26 tokens mixing look-alike keccak computations (consumed by logs, returns, calls, creates, reverts, re-hashing, comparisons, branches) with real storage accesses, and all mask-and-shift sequences up to length 4 (5) over 38 tokens behind a real load, with bytes that have no opcode (0x5c, 0x5d), dead jumps and a jump into the data of a cut-short push: storage-free programs must give an empty layout and every slot of a mixed program must lie in the over-approximated closure of constants found in key sub-trees of executed storage accesses.",
+         "All stack-safe sequences up to length 5 (6) over 26 tokens mixing look-alike keccak computations (consumed by logs, returns, calls, creates, reverts, re-hashing, comparisons, branches) with real storage accesses, and all mask-and-shift sequences up to length 4 (5) over 38 tokens behind a real load, with bytes that have no opcode (0x5c, 0x5d), dead jumps, a jump into the data of a cut-short push and keys whose hashed preimage is only partly constant (a text word next to a symbolic one): storage-free programs must give an empty layout and every slot of a mixed program must lie in the over-approximated closure of constants found in key sub-trees of executed storage accesses.",
          "attribution set is an over-approximation (check can only under-report); value-side lifting is a recorded known finding", "3/C05"),
  "C06": ("exploration", "E2-programs", "bounded exhaustive program enumeration with literal storage keys from a boundary set",
          "All token sequences up to length 4 (5) over literal-key reads/writes for 10 boundary keys plus control-flow and stack context tokens, crossed with tight exploration limits, value-size limits 1..6 and a never-stopping watchdog polled every 1, 2, 3, 7 iterations, every path ending (SELFDESTRUCT / RETURN / INVALID appended) and literal keys around keccak(n); whenever the tool executed such an access (and the reference EVM says it does not fault) and the analysis succeeds, the layout must contain an entry at exactly that 256-bit index.",
          "premise partly taken from the tool (executed offsets) so that exploration defects (C08) cannot raise a C06 alarm", "3/C06"),
  "C07": ("model_checking", "E2-programs", "bounded exhaustive program enumeration; reference EVM path enumeration validated path-by-path against the real VM's stored states",
-         "For every all-constant, stack-safe, loop-free program of the stated families the reference EVM enumerates all forced-branch paths; the real VM's stored final states are evaluated by an independent evaluator and must match the reference paths as a multiset of (stack, memory words, per-key ordered write lists). This is translation validation of each explored path, exhaustively over the bounded program space. Also 36 programs of 255 .. 70 000 bytes reading CODESIZE and PC, and storage keys computed from constants (a computed key mixed with the literal spelling of the same slot is a recorded known finding).",
+         "For every all-constant, stack-safe, loop-free program of the stated families the reference EVM enumerates all forced-branch paths; the real VM's stored final states are evaluated by an independent evaluator and must match the reference paths as a multiset of (stack, memory words, per-key ordered write lists). This is translation validation of each explored path, exhaustively over the bounded program space. Also 36 programs of 255 .. 70 000 bytes reading CODESIZE and PC, 96 programs storing and loading memory at offsets up to the 123 170 words a block can pay for, and storage keys computed from constants (a computed key mixed with the literal spelling of the same slot is a recorded known finding).",
          "trusts ref_evm + evaluator + ref_u256; environment fixed to zero storage/memory; operands from the boundary set", "3/C07"),
  "C08": ("model_checking", "E2-programs", "bounded exhaustive program enumeration; reference control-flow graph validated against the real VM's executed offsets",
-         "All token sequences up to length 5 (6 thorough) over 29 control-flow tokens covering every target kind named by the property (incl. the partial data of a trailing PUSH cut short by the end of the code), in strict and permissive error mode, plus 2 048 loops with a drifting jump target, 686 two-way dispatchers over 7 block endings and 2 490 (thorough: more) programs whose jump targets are computed from a PC read; the executed-offset set of the real VM is compared with a reference EVM reachability computation (subset always, equality for loop-free code).",
+         "All token sequences up to length 5 (6 thorough) over 29 control-flow tokens covering every target kind named by the property (incl. the partial data of a trailing PUSH cut short by the end of the code), in strict and permissive error mode, plus 2 048 loops with a drifting jump target, 686 two-way dispatchers over 7 block endings and 2 490 (thorough: more) programs whose jump targets are computed from a PC read; the executed-offset set of the real VM is compared with a reference EVM reachability computation (subset always; equality for loop-free code on every offset except a JUMPDEST that only a JUMP lands on).",
          "trusts ref_evm; JUMPDEST offsets are don't-cares in the equality direction (documented behaviour of JUMP)", "3/C08"),
  "C17": ("model_checking", "E2-programs", "bounded exhaustive program enumeration x {strict, permissive}; reference EVM error events validated against both modes",
          "All token sequences up to length 5 (6 thorough) over 27 error-provoking tokens plus stack-overflow, looping and gas families (the gas family at every gas limit at which a verdict can change); the reference EVM predicts the (class, offset) error events of all paths and both modes of the real VM and of analyze() are compared with the prediction.",
@@ -35,7 +35,7 @@ CHECKS = {
          "Every tree of the stated grammar (operators x boundary operand pairs; all trees to depth 3, wrapped and unwrapped) is folded by the real constant folder and compared structurally with a reference folder written on the harness's own tree type with independent 256-bit arithmetic; idempotence, size bookkeeping and totality are checked on each. Complete within the grammar, which contains every one-operator mistake (wrong constructor, wrong operand order, wrong boundary rule).",
          "trusts ref_u256 (cross-checked against Python big integers at setup) and the crate's PartialEq on values; says nothing about operands outside the boundary set", "3/C09"),
  "C11": ("exploration", "E2-programs", "exhaustive pairwise composition and renumbering of a fragment family (relational check on the real pipeline)",
-         "All ordered pairs of a 133-fragment (thorough: 187) family (idioms, 17 environment leaves and 3 shared constants x 4 uses, 11 hand-written evidence fragments) x 4 dispatcher shapes (selector compare, reversed, chained, literal conditions) x 2 slot assignments x {strict, permissive} are analysed separately and combined, and two-fragment programs under all 30 injective slot renumberings: the combined layout must be the union, a fragment's own layout must only name its own slot, the renumbered layout must be the renumbered original.",
+         "All ordered pairs of a 133-fragment (thorough: 187) family (idioms, 17 environment leaves and 3 shared constants x 4 uses, 11 hand-written evidence fragments) x 4 dispatcher shapes (selector compare, reversed, chained, literal conditions) x 2 slot assignments x {strict, permissive} (and a slice of the pairs under every gas limit 1..400 with 0 and 6 empty functions in between) are analysed separately and combined, and two-fragment programs under all 30 injective slot renumberings: the combined layout must be the union, a fragment's own layout must only name its own slot, the renumbered layout must be the renumbered original.",
          "fragments come from the C04 generator plus hand-written multi-evidence fragments", "3/C11"),
  "C12": ("exploration", "E2-programs", "bounded exhaustive enumeration of mask-and-shift programs with boundary shift amounts; structural oracle on every returned layout",
          "All stack-safe sequences up to length 4 (5) over 37 mask / shift / divide / multiply tokens with shift amounts 0..2^64-1 16 pipeline templates x B x B the nested sub-word family (a field taken out of a field, ~41 000 programs), typed uses of a narrow field and width operands up to 65 535: every returned layout must be ordered by (slot, offset) with every entry starting and, when its width is known, ending inside the 256-bit slot.",
@@ -47,13 +47,13 @@ CHECKS = {
          "All sets of up to 3 (4) judgements over a 3-variable universe and a 27-judgement alphabet (equalities, words, bytes, mappings / arrays incl. self-reference, packed encodings with empty, overlapping, unsorted, out-of-word and self-referential spans) are unified by the real code under a poll budget and every single deviation at the order points; termination, exactly one equality-free expression per variable, honoured equalities, no spurious equality and component unification are checked against a reference closure; plus a ring family of cyclic evidence with joint periods up to 60.",
          "3 variables instead of ~40; soundness / completeness of component unification only for sets without packed encodings", "3/C14"),
  "C15": ("model_checking", "E3-history", "explicit enumeration of evidence sets generated from hidden ground truths, evaluated on the real unifier against a reference word lattice",
-         "For 13 word truths (widths 0, 1, 8, 32, 64, 160, 192, 255, 256) and 3 constructors (also with `Any` on the constructed value) every subset of weakenings (<= 3 on one variable, <= 2 on an equal one; constructors stated twice with split component evidence) must resolve to the join computed on explicit chains and never to a conflict (also for containers nested two deep); each set with exactly one plainly contradictory judgement must resolve to a conflict; all under the canonical order and every single deviation at the unification order points.",
+         "For 13 word truths (widths 0, 1, 8, 32, 64, 160, 192, 255, 256) and 3 constructors (also with `Any` on the constructed value) every subset of weakenings (<= 3 on one variable, <= 2 on an equal one; constructors stated twice with split component evidence) must resolve to the join computed on explicit chains and never to a conflict (also for containers nested two deep and for two towers of up to 100 nested containers equated only at the top); each set with exactly one plainly contradictory judgement must resolve to a conflict; all under the canonical order and every single deviation at the unification order points.",
          "only the uncontroversial chains are generated; the join is computed without the tool's merge table", "3/C15"),
  "C16": ("exploration", "E1-flat", "complete enumeration of the property's finite evidence domain (all ordered pairs and triples) on the real merge",
          "The property's own domain (41 pieces of evidence) is finite: all 1 681 ordered pairs and all 68 921 ordered triples are pushed through the real unification::merge and compared after normalisation. This decides the property on its whole stated domain. The non-associative triples of the pinned tree (dynamic bytes / dynamic arrays absorbing mutually conflicting words) are listed one by one as known findings; any other triple is a violation.",
          "normalisation (conflicts collapsed, variables up to the emitted equalities) is the statement's own equivalence; packed encodings are outside the stated domain", "3/C16"),
  "C18": ("exploration", "E2-programs", "bounded exhaustive program enumeration x value-size limits with a recursive node-count oracle",
-         "All stack-safe sequences up to length 5 (6) over 13 value-growing tokens x size limits {1,2,3,5,8(,250)} x iteration limits, every vector of operand shapes {leaf, constant, composite}^arity for 55 value-building opcodes and 219 idiom programs; in accumulating loops and two-path programs no two opaque stand-ins of a final state may be the same value; every instruction result in every stored state must have <= limit nodes and every node of every value (after execution, in the exported view, after lifting, after folding) must report its true node count.",
+         "All stack-safe sequences up to length 5 (6) over 13 value-growing tokens x size limits {1,2,3,5,8(,250)} x iteration limits, every vector of operand shapes {leaf, constant, composite}^arity for 55 value-building opcodes and 219 idiom programs; in accumulating loops and two-path programs no two opaque stand-ins of a final state may be the same value; a hash over memory words of a value of known size is opaque exactly when its node count exceeds the limit (17 limits x 3 memory-operation limits); every instruction result in every stored state must have <= limit nodes and every node of every value (after execution, in the exported view, after lifting, after folding) must report its true node count.",
          "export wrappers are not instruction results; limits above 8 only in thorough", "3/C18"),
  "C19": ("model_checking", "E3-history", "explicit-state model checking (stateright BFS, iterative deepening) of all operation histories of the real structures against reference models",
          "All histories up to depth 6 (7 thorough) of the real DisjointSet over a 4-element universe with a non-idempotent data monoid, and up to depth 6 (8) of the real VectorMap (optionally starting with a bulk construction from any pair list incl. repeated keys, and writing through get_mut / iter_mut), are explored with state matching; every transition runs the real method and a naive reference model in lock-step and every state is compared through all observers, twice. Exhaustive for the property's stated bound (length 6, 4 elements).",
